@@ -4,7 +4,7 @@
    spec field  : what the property demands (all messages, in order, byte-identical, own descriptors, 1,2,3,...;
                  or, for a unit declaring more than 128 MiB, rejection after exactly its 16 header bytes); "-" otherwise
    class       : none (the former class leftover_fd is fixed by e5b20c34) *)
-From ZV Require Import Base.Bytes Base.Res C14.Model C14.Spec.
+From ZV Require Import Base.Bytes Base.Res C14.Model C14.Spec C14.Fields.
 Open Scope N_scope.
 
 (* ---- rendering ---- *)
@@ -108,7 +108,7 @@ Fixpoint total_bytes (ms : list smsg) : N :=
 Fixpoint valid_prefix (ms : list smsg) : list smsg * list smsg :=
   match ms with
   | [] => ([], [])
-  | m :: r => if valid_msgb std_fields m then let (a, b) := valid_prefix r in (m :: a, b) else ([], ms)
+  | m :: r => if valid_msgb c11_fields m then let (a, b) := valid_prefix r in (m :: a, b) else ([], ms)
   end.
 
 Definition oversize (m : smsg) : bool :=
@@ -140,7 +140,7 @@ Definition run_case (line : bytes) : outp :=
           let w := wire ms in
           let c := N.to_nat cutN in
           if (length w <? c)%nat then bad_case else
-          let (outs, st) := run_reader std_fields (oracle_of sc) w c in
+          let (outs, st) := run_reader c11_fields (oracle_of sc) w c in
           {| o_model := render_obs (lbeq mode (B "c")) outs (N.of_nat (calls st)) (lenN w - lenN (strm st));
              o_spec := spec_field ms c sc;
              o_class := dash |}
